@@ -139,6 +139,17 @@ def direct_case(ctx, i, rng):
     kname = "%s-%s" % (typ, k) if typ == "odo" else "lm-%s-%s" % (k, R.POINT_OF[k])
     ctx.count("kind:" + kname)
     case = {"edge": spec, "poses": [M.fl(v.pose) for v in e.vertices], "kinds": M.edge_kinds(e)}
+    if i % 7 == 0:
+        # a client (a weighted custom edge) has asked the poses for their building-block Jacobians and scaled what it got, in place
+        with np.errstate(all="ignore"):
+            for v in e.vertices:
+                for name in ("jacobian_self_oplus_other_wrt_self", "jacobian_self_oplus_other_wrt_other", "jacobian_self_ominus_other_wrt_self", "jacobian_self_ominus_other_wrt_other", "jacobian_boxplus"):
+                    try:
+                        Jb = getattr(v.pose, name)(v.pose) if name != "jacobian_boxplus" else v.pose.jacobian_boxplus()
+                        Jb *= 0.25
+                    except Exception:  # noqa: BLE001
+                        pass
+        ctx.count("class:pose_level_jacobians_scaled_in_place_by_a_client")
     res = O.check_edge_jacobians(ctx, e, "direct", fd=True, case=case, rng=rng)
     if res is None:
         return
@@ -233,12 +244,45 @@ def mutate_operand(rng, e, maxexp=3.0):
     return "%s:%s" % (tgt, how)
 
 
+def loaded_edge(rng, typ, k):
+    """The edge as the loader builds it: a two-vertex .g2o file is written and read back (only the kinds the format can express)."""
+    import os
+    import shutil
+    import tempfile
+
+    labels = set()
+    e0, spec = make_edge(rng, typ, k, 2.0, labels)
+    if typ == "lm":
+        spec = dict(spec, off=R.identity(k)) if k == "se2" else spec
+    d = tempfile.mkdtemp(prefix="c01-", dir=os.environ.get("VF_SCRATCH"))
+    try:
+        verts = [{"id": 1, "kind": M.kind(e0.vertices[0].pose), "pose": gen.normalize_pose(M.kind(e0.vertices[0].pose), M.fl(e0.vertices[0].pose)), "fixed": False},
+                 {"id": 2, "kind": M.kind(e0.vertices[1].pose), "pose": gen.normalize_pose(M.kind(e0.vertices[1].pose), M.fl(e0.vertices[1].pose)), "fixed": False}]
+        gs = {"vertices": verts, "edges": [dict(spec, info_dtype=None)], "params": ([{"tag": "PARAMS_SE3OFFSET", "id": 0, "value": gen.normalize_pose("se3", spec["off"])}] if (typ == "lm" and k == "se3") else [])}
+        gs["edges"][0].pop("info_dtype", None)
+        pth = os.path.join(d, "e.g2o")
+        M.build(gs).to_g2o(pth)
+        g = M.Graph.from_g2o(pth)
+        return g._edges[0], gs["edges"][0], g
+    finally:
+        shutil.rmtree(d, ignore_errors=True)
+
+
 def history_case(ctx, i, rng):
     """The Jacobians must follow the current operands after any sequence of replacements / in-place modifications
     (a result memoised on part of the operands goes stale here)."""
     typ, k = EDGE_KINDS[(i // 10) % len(EDGE_KINDS)]
     labels = set()
     e, spec = make_edge(rng, typ, k, 3.0 if rng.random() < 0.7 else 6.0, labels)  # a third of the histories far from the origin (UTM-like coordinates)
+    keep_graph = None
+    if k in ("se2", "se3") and rng.random() < 0.4:
+        # the same kind of history on an edge that came out of the loader (a 2-D landmark edge is born with an identity offset there, and is later
+        # given its real sensor offset by assignment or by an in-place write)
+        try:
+            e, spec, keep_graph = loaded_edge(rng, typ, k)
+            ctx.count("class:history_on_an_edge_built_by_the_loader")
+        except Exception:  # noqa: BLE001 - hostile values the format cannot carry: stay with the constructor-built edge
+            pass
     hist = []
     for step in range(int(rng.integers(3, 7))):
         with np.errstate(all="ignore"):
